@@ -452,7 +452,27 @@ func mutateNode(n ipld.Node, mut []int, texts []string) ipld.Node {
 		}
 		if !applied && next(3) == 0 {
 			applied = true
-			switch next(7) {
+			switch next(12) {
+			case 7, 8: // a statement replaced by a bare GROUP of 2 or 3 statements (itself twice / thrice): a list where a tuple belongs
+				if len(x.L) > 0 && x.L[0].K == "str" {
+					g := val.V{K: "list", L: []val.V{x, x}}
+					if next(2) == 0 {
+						g.L = append(g.L, x)
+					}
+					return g
+				}
+			case 9: // a connective replaced by its bare operand list: ["and", [a, b]] -> [a, b]
+				if len(x.L) == 2 && x.L[0].K == "str" && x.L[1].K == "list" {
+					return x.L[1]
+				}
+			case 10: // one more level of list around a statement
+				if len(x.L) > 0 && x.L[0].K == "str" {
+					return val.V{K: "list", L: []val.V{x}}
+				}
+			case 11: // operator and selector swapped
+				if len(x.L) >= 2 && x.L[0].K == "str" && x.L[1].K == "str" {
+					x.L = append([]val.V{x.L[1], x.L[0]}, x.L[2:]...)
+				}
 			case 0: // drop an element
 				if len(x.L) > 0 {
 					i := next(len(x.L))
